@@ -422,6 +422,19 @@ def _group(rng, tier, idx, spec=None):
         if configured and rng.chance(0.15):
             # configuration persists: a plain find on a configured estimator returns the translation divided by the scale
             lines.append('lsq.find a ' + _aligned(tok, size, src, tgt, nrm, wn))
+        if configured and rng.chance(0.35):
+            # RE-configuration of a used estimator: every preconditioned find installs its own scale, whatever was installed
+            # before — in particular the scale EXACTLY 1 (and its neighbours) after a scale far from 1 (seeded change c05c: a
+            # "unit scale, nothing to do" early return in setPreconditioner keeps the previous call's preconditioner)
+            one = _rnd(T, 1.0)
+            up = _rnd(T, 1.0 + (2.0 ** -23 if T == 'f' else 2.0 ** -52))
+            dn = _rnd(T, 1.0 - (2.0 ** -24 if T == 'f' else 2.0 ** -53))
+            for sc2 in [rng.choice([one, one, up, dn, _rnd(T, rng.loguniform(1e-2, 1e2))]) for _ in range(rng.int(1, 2))]:
+                if rng.chance(0.5):
+                    lines.append('lsq.findp a %s %s' % (tok(sc2), _aligned(tok, size, src, tgt, nrm, wn)))
+                else:
+                    lines.append('lsq.setpre ' + tok(sc2))
+                    lines.append('lsq.find a ' + _aligned(tok, size, src, tgt, nrm, wn))
     meta = {'dim': dim, 'T': T, 'truth': truth, 'group': group, 'n': n}
     if spec:
         meta['sweep'] = {k: spec[k] for k in ('stream', 'diam', 'frac', 'scale')}
